@@ -88,6 +88,12 @@ META["C19"] = dict(
 def c19():
     import cli_c19
     return Check("C19", [
+        Leg("lib-default", "c19", shards=(4, 16), label="lib:c19", crash_is_violation=True),
+        Leg("lib-default", "c19", shards=(1, 4), args={"mode": "deep"}, label="lib:c19:deep", crash_is_violation=True, timeout=(600, 2400)),
+        Leg("lib-checked", "c19", shards=(2, 8), label="lib-checked:c19", tiers=("thorough",), crash_is_violation=True, seed_offset=300),
+        Leg("asan-lib", "c19", shards=(4, 16), label="asan-lib:c19", tiers=("thorough",), crash_is_violation=True, seed_offset=500),
+        Leg("miri-base", "c19", shards=(1, 4), label="miri-base:c19", tiers=("thorough",), timeout=MIRI_T),
+        Leg("miri-avx2", "c19", shards=(1, 4), label="miri-avx2:c19", tiers=("thorough",), timeout=MIRI_T),
         Leg("cli", "cli_c19", fn=cli_c19.run, label="cli:c19"),
         Leg("asan-cli", "cli_c19", fn=cli_c19.run, label="asan-cli:c19", tiers=("thorough",), args={"fraction": 0.25}, seed_offset=1000),
         Leg("cli", "cli_c19", fn=cli_c19.run, label="valgrind-cli:c19", tiers=("thorough",), seed_offset=2000,
@@ -310,6 +316,88 @@ def c32():
     return Check("C32", [
         Leg("lib-default", "c32", shards=(4, 16)),
         Leg("miri-avx2", "c32", shards=(1, 1), tiers=("thorough",), timeout=MIRI_T),
+    ])
+
+
+META["C01"] = dict(
+    text="Generated word vectors (uniform, density 2^-k, long zero/one runs crossing 8-word scan blocks and 512-bit rank blocks, single bits; lengths emphasising 0,1,63..65,511..513; stray bits above len in the last word and whole surplus words) are built at 12 sample rates and in hostile storage variants; get/rank1/rank0/select1/select0/count_* for every position and rank (sampled on vectors up to 65k words, incl. out-of-range and huge arguments) must equal a bit-at-a-time model of the first len bits. The answer digest must be identical in the default, simd and portable-popcount builds. Miri base + avx2 in the thorough tier.",
+    note="Branch counters (scan skipped >= 1 / >= 8 blocks, ends in tail / block loop, rank at 512 edge) are derived from the data and required. jump_to's 'beyond last sample' branch is unreachable for k < ones (noted).",
+    technique=SAN + "reference-model monitor + cross-build digest comparison + Miri")
+
+META["C02"] = dict(
+    text="Every select path (dispatcher, PDEP, CTZ, broadword, byte table - driven directly through hook H1), popcount variants, 8-word block popcount (portable and AVX2), scan_select/scan_select_scalar/select_from and the in-word parenthesis kernels are compared with bit-serial definitions: EXHAUSTIVE over all 2^16 patterns in each 16-bit lane x all k 0..64 (two backgrounds), all bytes x k for the byte table, all byte values in all lanes for popcount; plus 8M (quick) / 100M (thorough) structured 64-bit words, saturated blocks and k up to u32::MAX. Digests equal across the three popcount builds; Miri base (CTZ/portable) and avx2 (PDEP/AVX2 interpreted).",
+    note="The property as a whole (2^64 words) is sampled; the enumerated sub-spaces are listed in exhaustive_subspaces. NEON/SVE2 paths cannot run here.",
+    technique=SAN + "kernel-vs-bit-serial-definition monitor with exhaustive sub-spaces + Miri (both target-feature sets)")
+
+META["C31"] = dict(
+    text="words_to_bytes / bytes_to_words / bytes_to_words_vec / try_bytes_to_words on generated vectors at every start offset 0..8 of an aligned buffer and every length class mod 8; BitVec, BalancedParens (owned, borrowed), JsonIndex::from_parts and SemiIndex::from_bytes rebuilt from serialised parts must answer full query transcripts (rank/select, BP navigation, cursor walks, cursor_at_offset, line/column) identically to the originals and to the generator's ground truth. Miri (strict alignment checking) base + avx2 in the thorough tier.",
+    note="Two known findings: the borrowed conversions cannot hand out &[u64] over misaligned bytes (bytes_to_words panics, try_bytes_to_words returns None); the owned form was repaired.",
+    technique=SAN + "round-trip / rebuilt-index differential + Miri alignment checking")
+
+META["C23"] = dict(
+    text="Grammar-generated programs (depth <= 4, 177 builtins that the parser accepts, paths, pipes, comma, construction, arithmetic, comparison, conditionals, try/catch, reduce/foreach, label/break, optional, formats, defs) x generated JSON inputs (duplicate keys, edge numbers) are evaluated by the library evaluator and by the generic evaluator the CLI uses; both are drained to (sequence of JSON texts, terminal = end | error message | break | halt) and must agree. Disagreements are shrunk and de-duplicated by (builtin, terminal kinds, input class).",
+    note="Budget-exhausted pairs are inconclusive. One known finding family: the library evaluator does not collapse duplicate object keys in ~20 object-iterating builtins.",
+    technique=SAN + "evaluator differential on generated programs")
+
+META["C25"] = dict(
+    text="For generated duplicate-free JSON values: tojson|fromjson, to_entries|from_entries, tostream/fromstream, @base64|@base64d, @uri + independent percent-decoder, getpath for every path in `paths` against an independent model lookup, setpath(p; getpath(p)) == ., setpath(p; $x) changes exactly p, sort/unique against an independent implementation of jq's total order - on both evaluators.",
+    note="Numbers compare as doubles; arrays holding two literals equal as doubles but different as decimals are skipped for sort/unique (literal preservation is left open by the property).",
+    technique=SAN + "metamorphic identities + independent model (order, paths)")
+
+META["C30"] = dict(
+    text="jq::parse on token soups (non-ASCII, unbalanced and 10k-deep brackets) and parse + evaluation of generated programs with extreme operands (infinite, nan, 1e19, -0, 1e308, huge repeat counts, huge indices) on both evaluators under catch_unwind, supervised in child processes so that aborts (allocation failure, stack overflow) are attributed to the logged case; CLI leg with the same programs; ASan leg in the thorough tier.",
+    note="Programs whose definition does not terminate are excluded by the generator; time/RSS budget exhaustion is inconclusive. Known findings: the documented library depth guards (384 value depth, 256 nesting) panic by design.",
+    technique=SAN + "crash monitor (catch_unwind + supervised child processes) with hostile program workloads")
+
+
+@plan("C01")
+def c01():
+    return Check("C01", [
+        Leg("lib-default", "c01", shards=(2, 8), digest_group="c01"),
+        Leg("lib-simd", "c01", shards=(2, 8), digest_group="c01"),
+        Leg("lib-portable", "c01", shards=(2, 8), digest_group="c01"),
+        Leg("miri-base", "c01", shards=(1, 2), tiers=("thorough",), timeout=MIRI_T),
+        Leg("miri-avx2", "c01", shards=(1, 2), tiers=("thorough",), timeout=MIRI_T),
+    ])
+
+
+@plan("C02")
+def c02():
+    return Check("C02", [
+        Leg("lib-default", "c02", shards=(2, 8), digest_group="c02"),
+        Leg("lib-simd", "c02", shards=(2, 8), digest_group="c02"),
+        Leg("lib-portable", "c02", shards=(2, 8), digest_group="c02"),
+        Leg("miri-base", "c02", shards=(1, 2), tiers=("thorough",), timeout=MIRI_T),
+        Leg("miri-avx2", "c02", shards=(1, 2), tiers=("thorough",), timeout=MIRI_T),
+    ])
+
+
+@plan("C31")
+def c31():
+    return Check("C31", [
+        Leg("lib-default", "c31", shards=(2, 8)),
+        Leg("miri-base", "c31", shards=(1, 2), tiers=("thorough",), timeout=MIRI_T),
+        Leg("miri-avx2", "c31", shards=(1, 1), tiers=("thorough",), timeout=MIRI_T),
+        Leg("asan-lib", "c31", shards=(1, 4), tiers=("thorough",)),
+    ])
+
+
+@plan("C23")
+def c23():
+    return Check("C23", [Leg("lib-default", "c23", shards=(4, 16))])
+
+
+@plan("C25")
+def c25():
+    return Check("C25", [Leg("lib-default", "c25", shards=(4, 16))])
+
+
+@plan("C30")
+def c30():
+    return Check("C30", [
+        Leg("lib-default", "c30", shards=(2, 8), crash_is_violation=True, timeout=(600, 2400)),
+        Leg("asan-lib", "c30", shards=(2, 8), tiers=("thorough",), crash_is_violation=True, timeout=(600, 3000), seed_offset=700),
+        Leg("miri-base", "c30", shards=(1, 2), tiers=("thorough",), timeout=MIRI_T),
     ])
 
 
